@@ -93,7 +93,7 @@ func onGrid(t time.Time, interval, offset time.Duration) bool {
 }
 
 func (c18) Run(e *Env) {
-	e.ProbeDecl("regime-bubble", "regime-mock", "slow-consumer", "jump-over-several-intervals", "step-lands-on-boundary", "step-1ns-before-boundary", "offset-beyond-interval", "sub-second-interval", "non-round-interval", "start-on-boundary", "backend-attached", "start-before-unix-epoch", "start-beyond-int64-nanoseconds", "clock-moves-between-reading-and-arming")
+	e.ProbeDecl("regime-bubble", "regime-mock", "slow-consumer", "jump-over-several-intervals", "step-lands-on-boundary", "step-1ns-before-boundary", "offset-beyond-interval", "sub-second-interval", "non-round-interval", "start-on-boundary", "backend-attached", "start-before-unix-epoch", "start-beyond-int64-nanoseconds", "clock-moves-between-reading-and-arming", "negative-offset")
 	intervals := []time.Duration{time.Millisecond, 250 * time.Millisecond, 333 * time.Millisecond, time.Second, 1500 * time.Millisecond, 2500 * time.Millisecond, 7 * time.Second, 10 * time.Second, 90 * time.Second, time.Hour}
 	interval := intervals[e.Draw(len(intervals))]
 	if interval < time.Second {
@@ -110,6 +110,12 @@ func (c18) Run(e *Env) {
 	case 3:
 		offset = interval*time.Duration(1+e.Draw(3)) + time.Duration(e.Draw(1000))*interval/1000
 		e.Probe("offset-beyond-interval")
+	}
+	if e.Chance(1, 8) {
+		offset = -offset // "flush two seconds before every boundary": beyond [0, interval) on the other side
+		if offset < 0 {
+			e.Probe("negative-offset")
+		}
 	}
 	// start instant: anywhere, including exactly on a boundary
 	switch e.Draw(3) {
